@@ -356,6 +356,73 @@ Theorem C16_generated_rebuild_eq_model : forall (W : world) rebuild st,
 Proof. exact g_rebuildUtilityRegistry_eq. Qed.
 Print Assumptions C16_generated_rebuild_eq_model.
 
+(* the repair path (rebuild=True) of rebuildUtilityRegistryFromLocalCache as regenerated from the
+   source text is the model's, hence (C16_probe_repairs) it repairs *)
+Theorem C16_generated_rebuild_from_cache_eq_model : forall (W : world) st,
+  g_rebuildUtilityRegistry W true st = rebuildUtilityRegistry W true st.
+Proof. intros W st. exact (g_rebuildUtilityRegistry_eq W true st). Qed.
+Print Assumptions C16_generated_rebuild_from_cache_eq_model.
+
+(* inferred arguments = explicit arguments.  For ARBITRARY answers of the inference helpers ([gup]
+   _getUtilityProvided, [gn] _getName, [gap] _getAdapterProvided, [gar] _getAdapterRequired), a call
+   of the regenerated kernels that leaves provided / required / name to inference (from
+   ``implementer`` declarations, ``__component_adapts__``, ``named()``) IS the model's call with the
+   inferred values passed explicitly -- so it is listed, queried and announced exactly like it --, and
+   a failing inference is a TypeError that changes nothing. *)
+Theorem C16_generated_inference_eq_explicit :
+  forall (W : world) (hashable : value -> bool) (gup : value -> option spec) (gn : value -> name)
+         (gap : value -> option spec) (gar : option value -> option (list (option spec)) -> option (list spec))
+         st c f ro po n i ev,
+    g_registerUtility W hashable gup gn st (Some c) po n i ev None
+    = match or_infer po (gup c) with
+      | None => (st, RTypeError, [])
+      | Some p => cstep W hashable st (RegUtility c p (name_or n (gn c)) i None ev)
+      end /\
+    g_unregisterUtility W hashable gup st (Some c) None n None
+    = match gup c with
+      | None => (st, RTypeError, [])
+      | Some p => cstep W hashable st (UnregUtility (Some c) p n)
+      end /\
+    g_registerAdapter W gn gap gar st f ro po n i ev
+    = match or_infer po (gap f) with
+      | None => (st, RTypeError, [])
+      | Some p => match gar (Some f) ro with
+                  | None => (st, RTypeError, [])
+                  | Some q => cstep W hashable st (RegAdapter f (map Some q) p (name_or n (gn f)) i ev)
+                  end
+      end /\
+    g_unregisterAdapter W gap gar st (Some f) None None n
+    = match gap f with
+      | None => (st, RTypeError, [])
+      | Some p => match gar (Some f) None with
+                  | None => (st, RTypeError, [])
+                  | Some q => cstep W hashable st (UnregAdapter (Some f) (map Some q) p n)
+                  end
+      end /\
+    g_registerSubscriptionAdapter W gap gar st f ro po 0 i ev
+    = match or_infer po (gap f) with
+      | None => (st, RTypeError, [])
+      | Some p => match gar (Some f) ro with
+                  | None => (st, RTypeError, [])
+                  | Some q => cstep W hashable st (RegSub f (map Some q) p 0 i ev)
+                  end
+      end /\
+    g_registerHandler W gar st f ro 0 i ev
+    = match gar (Some f) ro with
+      | None => (st, RTypeError, [])
+      | Some q => cstep W hashable st (RegHandler f (map Some q) 0 i ev)
+      end.
+Proof.
+  intros W hashable gup gn gap gar st c f ro po n i ev.
+  exact (conj (g_registerUtility_inferred W hashable gup gn st c po n i ev)
+        (conj (g_unregisterUtility_inferred W hashable gup st c n)
+        (conj (g_registerAdapter_inferred W gn gap gar st f ro po n i ev)
+        (conj (g_unregisterAdapter_inferred W gap gar st f n)
+        (conj (g_registerSubscriptionAdapter_inferred W gap gar st f ro po i ev)
+              (g_registerHandler_inferred W gar st f ro i ev)))))).
+Qed.
+Print Assumptions C16_generated_inference_eq_explicit.
+
 (* the query methods delegate to the right registry with the right arguments ([u_regs] / [a_regs]:
    the ``utilities`` / ``adapters`` registries along the object's base chain) *)
 Theorem C16_generated_queries_eq_model : forall (W : world) (call : value -> list nat -> option nat) S r,
